@@ -52,6 +52,9 @@ type Req struct {
 	Req  string `json:"req"`
 	Dev  bool   `json:"dev,omitempty"`  // devDependencies / <scope>test</scope>
 	Prop string `json:"prop,omitempty"` // Maven only: version is written as ${Prop}, property Prop = Req
+	// Maven only: <classifier>/<type> of the dependency, so that one package can legally be required twice.
+	Classifier string `json:"classifier,omitempty"`
+	Type       string `json:"type,omitempty"`
 }
 
 // Vuln is one OSV record affecting a single package in [Introduced, Fixed) (no Fixed = forever).
@@ -192,6 +195,12 @@ func (c *Case) pomXML() []byte {
 			ver = "${" + r.Prop + "}"
 		}
 		b.WriteString("    <dependency>\n      <groupId>g</groupId>\n      <artifactId>" + r.Name + "</artifactId>\n      <version>" + ver + "</version>\n")
+		if r.Classifier != "" {
+			b.WriteString("      <classifier>" + r.Classifier + "</classifier>\n")
+		}
+		if r.Type != "" {
+			b.WriteString("      <type>" + r.Type + "</type>\n")
+		}
 		if r.Dev {
 			b.WriteString("      <scope>test</scope>\n")
 		}
